@@ -256,6 +256,8 @@ func matchPieces(got, exp [][]P, tol float64) bool {
 	return true
 }
 
+var c07ret retained
+
 type c07case struct {
 	Box  [4]float64 `json:"box_minx_miny_maxx_maxy"`
 	Line []P        `json:"line"`
@@ -281,6 +283,8 @@ func c07check(c *h.Ctx, box [4]float64, line []P, tol float64, full bool) (nontr
 			got = clip.LineString(b, in)
 		}
 		c.Eval()
+		c07ret.check(c)
+		c07ret.set(got, "clip.LineString")
 		cs := func() c07case { return c07case{box, line, open} }
 		if !bitsEqualPts(in, snap) {
 			c.Fail("", "clip.LineString modified its input", cs())
